@@ -42,8 +42,13 @@ void AnnotateIgnoreSyncEnd(const char* f, int l);
 
 namespace sim {
 
+// depth of simulator/harness regions on this thread (used by the atomic-operation yield points)
+static __thread int t_ignore_depth = 0;
+int ignore_depth() { return t_ignore_depth; }
+
 IgnoreScope::IgnoreScope()
 {
+    t_ignore_depth++;
 #ifdef SIM_TSAN
     AnnotateIgnoreReadsBegin(__FILE__, __LINE__);
     AnnotateIgnoreWritesBegin(__FILE__, __LINE__);
@@ -52,6 +57,7 @@ IgnoreScope::IgnoreScope()
 }
 IgnoreScope::~IgnoreScope()
 {
+    t_ignore_depth--;
 #ifdef SIM_TSAN
     AnnotateIgnoreSyncEnd(__FILE__, __LINE__);
     AnnotateIgnoreWritesEnd(__FILE__, __LINE__);
@@ -842,3 +848,62 @@ int __wrap_nanosleep(const struct timespec* req, struct timespec* rem)
 }
 
 } // extern "C"
+
+// =====================================================================================
+// Variant "tsanat": every atomic operation of instrumented code is a decision point
+// (ThreadSanitizer routes them through __tsan_atomic*, which are wrapped at link time).
+// =====================================================================================
+#ifdef SIM_TSAN_ATOMICS
+namespace {
+inline void atomic_point(const volatile void* a)
+{
+    if (sim::ignore_depth() == 0 && sim::in_sim()) sim::point("atomic", const_cast<const void*>(a));
+}
+}
+#define SIM_ATOMIC_WRAPS(N, T)                                                                                          \
+    extern "C" T __real___tsan_atomic##N##_load(const volatile T* a, int mo);                                              \
+    extern "C" T __wrap___tsan_atomic##N##_load(const volatile T* a, int mo)                                               \
+    {                                                                                                                      \
+        atomic_point(a);                                                                                                   \
+        return __real___tsan_atomic##N##_load(a, mo);                                                                      \
+    }                                                                                                                      \
+    extern "C" void __real___tsan_atomic##N##_store(volatile T* a, T v, int mo);                                           \
+    extern "C" void __wrap___tsan_atomic##N##_store(volatile T* a, T v, int mo)                                            \
+    {                                                                                                                      \
+        atomic_point(a);                                                                                                   \
+        __real___tsan_atomic##N##_store(a, v, mo);                                                                         \
+    }                                                                                                                      \
+    extern "C" T __real___tsan_atomic##N##_exchange(volatile T* a, T v, int mo);                                           \
+    extern "C" T __wrap___tsan_atomic##N##_exchange(volatile T* a, T v, int mo)                                            \
+    {                                                                                                                      \
+        atomic_point(a);                                                                                                   \
+        return __real___tsan_atomic##N##_exchange(a, v, mo);                                                               \
+    }                                                                                                                      \
+    extern "C" T __real___tsan_atomic##N##_fetch_add(volatile T* a, T v, int mo);                                          \
+    extern "C" T __wrap___tsan_atomic##N##_fetch_add(volatile T* a, T v, int mo)                                           \
+    {                                                                                                                      \
+        atomic_point(a);                                                                                                   \
+        return __real___tsan_atomic##N##_fetch_add(a, v, mo);                                                              \
+    }                                                                                                                      \
+    extern "C" T __real___tsan_atomic##N##_fetch_sub(volatile T* a, T v, int mo);                                          \
+    extern "C" T __wrap___tsan_atomic##N##_fetch_sub(volatile T* a, T v, int mo)                                           \
+    {                                                                                                                      \
+        atomic_point(a);                                                                                                   \
+        return __real___tsan_atomic##N##_fetch_sub(a, v, mo);                                                              \
+    }                                                                                                                      \
+    extern "C" int __real___tsan_atomic##N##_compare_exchange_strong(volatile T* a, T* c, T v, int mo, int fmo);           \
+    extern "C" int __wrap___tsan_atomic##N##_compare_exchange_strong(volatile T* a, T* c, T v, int mo, int fmo)            \
+    {                                                                                                                      \
+        atomic_point(a);                                                                                                   \
+        return __real___tsan_atomic##N##_compare_exchange_strong(a, c, v, mo, fmo);                                        \
+    }                                                                                                                      \
+    extern "C" int __real___tsan_atomic##N##_compare_exchange_weak(volatile T* a, T* c, T v, int mo, int fmo);             \
+    extern "C" int __wrap___tsan_atomic##N##_compare_exchange_weak(volatile T* a, T* c, T v, int mo, int fmo)              \
+    {                                                                                                                      \
+        atomic_point(a);                                                                                                   \
+        return __real___tsan_atomic##N##_compare_exchange_weak(a, c, v, mo, fmo);                                          \
+    }
+SIM_ATOMIC_WRAPS(8, unsigned char)
+SIM_ATOMIC_WRAPS(32, unsigned int)
+SIM_ATOMIC_WRAPS(64, unsigned long long)
+#endif
